@@ -92,6 +92,20 @@ Definition over_max_at (q : oqueue) (k : tid) : bool :=
   end.
 Definition over_max_types (q : oqueue) : list tid := filter (over_max_at q) (keys (q_alloc q)).
 
+(* the same judged on what the applications below the queue actually hold (real + placeholder allocations),
+   independent of the queue's own ledger: a decision that is not charged to the queue still uses the quota *)
+Definition apps_under (s : ostate) (q : N) : list oapp :=
+  filter (fun a => existsb (fun anc => q_id anc =? q) (ancestors s (ap_queue a))) (s_apps s).
+Definition held_under (s : ostate) (q : N) (k : tid) : Z :=
+  (sumz (map ap_allocated (apps_under s q)) k + sumz (map ap_phalloc (apps_under s q)) k)%Z.
+Definition over_max_held_at (s : ostate) (q : oqueue) (k : tid) : bool :=
+  match q_max q with
+  | None => false
+  | Some m => match get m k with Some v => (v <? held_under s (q_id q) k)%Z | None => false end
+  end.
+Definition held_keys (s : ostate) (q : N) : list tid :=
+  res_keys (map ap_allocated (apps_under s q)) ++ res_keys (map ap_phalloc (apps_under s q)).
+
 (* after a scheduling decision for an ask with resource r placed in leaf queue qid: no ancestor is above its
    maximum on a type the ask requests; at the root every requested type must be provided by some node *)
 Definition queue_max_ok_after (post : ostate) (qid : N) (r : res) : bool :=
